@@ -348,6 +348,35 @@ def _dispatch(task):
     raise HarnessError(kind)
 
 
+def fuzz_cases(target, tier, shard, seed, runs):
+    """Runs a coverage-guided atheris campaign (vf.fuzz_target) in a subprocess on a fresh corpus
+    directory and returns the inputs it kept (corpus + crash artifacts) as strings.  The caller
+    re-judges them through its normal check; an unavailable atheris yields no inputs."""
+    import shutil
+    import subprocess
+    base = os.path.join(os.environ.get("VERIF_OUT_DIR") or os.path.join(VERIF_DIR, "out"),
+                        "fuzz", f"{target}-{tier}-{seed}-{shard}")
+    shutil.rmtree(base, ignore_errors=True)
+    corpus, art = os.path.join(base, "corpus"), os.path.join(base, "artifacts")
+    env = dict(os.environ)
+    deps = os.path.join(VERIF_DIR, ".deps")
+    env["PYTHONPATH"] = deps + (os.pathsep + env["PYTHONPATH"] if env.get("PYTHONPATH") else "")
+    try:
+        subprocess.run([sys.executable, "-m", "vf.fuzz_target", target, corpus, art, str(runs),
+                        str(seed * 100 + shard + 1)], cwd=VERIF_DIR, env=env, capture_output=True,
+                       timeout=3600)
+    except Exception:  # noqa
+        pass
+    out = []
+    for d in (art, corpus):
+        if os.path.isdir(d):
+            for fn in sorted(os.listdir(d)):
+                with open(os.path.join(d, fn), "rb") as f:
+                    out.append(f.read())
+    shutil.rmtree(base, ignore_errors=True)
+    return out
+
+
 def run_case(prop_id, sub_name, case, tier="quick", open_ids=()):
     """Evaluate one stored case without Hypothesis.  Returns (ok, message, rec)."""
     mod = load_prop(prop_id)
